@@ -563,6 +563,10 @@ class Blockwise(ArrayExpr):
                 if not hasattr(arr, "_meta"):
                     # Non-array args (e.g., ArraySliceDep) can't be shuffled
                     return None
+                if ind.count(shuffle_ind) > 1:
+                    # The label indexes several axes of this operand (e.g. a
+                    # diagonal, 'ii'); shuffling one of them is not enough.
+                    return None
                 # Find the axis in this input that corresponds to shuffle_ind
                 input_axis = ind.index(shuffle_ind)
                 if arr.shape[input_axis] != self.shape[axis]:
